@@ -329,6 +329,25 @@ func init() {
 				}
 				x.Sample(func() string { return prog })
 			}},
+			{Name: "transform-literal-nulls", Quick: []int{1}, ShardDepth: -1, Run: func(c *explore.Chooser, x *explore.Ctx, _ int) {
+				// the copy keeps the nulls of a value built by the program: "everything else is equal to the original"
+				cases := []struct {
+					prog string
+					want interface{}
+				}{
+					{`($o := {"e": null, "a": {"k": 1}}; $o ~> |a|{"z": 1}|)`, map[string]interface{}{"e": nil, "a": map[string]interface{}{"k": 1.0, "z": 1.0}}},
+					{`($o := {"e": null, "a": {}}; ($o ~> |nothing|{}|) = $o)`, true},
+					{`($o := {"e": null, "a": {}}; $exists(($o ~> |a|{"z": 1}|).e))`, true},
+					{`($o := {"l": [{"e": null}, {"e": 1}]}; $o ~> |l[e = null]|{"hit": true}|)`, map[string]interface{}{"l": []interface{}{map[string]interface{}{"e": nil, "hit": true}, map[string]interface{}{"e": 1.0}}}},
+					{`($o := {"x": [null, 1, null]}; ($o ~> |$|{"y": 2}|).x)`, []interface{}{nil, 1.0, nil}},
+					{`($o := {"x": {"deep": [null]}}; $o ~> |x|{}, "none"|)`, map[string]interface{}{"x": map[string]interface{}{"deep": []interface{}{nil}}}},
+				}
+				k := cases[c.Choose(len(cases))]
+				c.Done()
+				got := c16Expect(x, k.prog, map[string]interface{}{}, k.want, false, true)
+				x.Outcome(got.Short())
+				x.Nontrivial()
+			}},
 			{Name: "transform-escape", Quick: []int{1}, Run: func(c *explore.Chooser, x *explore.Ctx, _ int) {
 				pats := []string{"$$", "$$.a", "$$.o", "$v", "$v.a", "$w", "$$.**", "[$$, $]", "$$.o[k=1]"}
 				p := pats[c.Choose(len(pats))]
